@@ -1,5 +1,5 @@
 SPECIFICATION Spec
-CONSTANTS NSubs = 2 B = 2 Progs <- ProgsSPt Interval = 6 MaxNow = 2 DepartFix = TRUE
+CONSTANTS NSubs = 2 B = 2 Progs <- ProgsSPt Interval = 6 MaxNow = 2 DepartFix = TRUE SkipEndedSubscriber = FALSE
 INVARIANTS CommonOrder ChannelsClosedAtReturn
-PROPERTIES QuietAfterClose CloseReturns
+PROPERTIES QuietAfterClose CloseReturns DepartedClosed
 CHECK_DEADLOCK FALSE
